@@ -6,6 +6,7 @@ import (
 	"hash/crc64"
 	"hash/fnv"
 	"runtime/debug"
+	"sort"
 	"strconv"
 	"strings"
 
@@ -695,6 +696,7 @@ func c04(r *Run) {
 	c04AfterFailedParse(r)
 	parseVerdictStable(r, "")
 	nilTreeKeepsRegistry(r, "c04:")
+	c04IDWithTwoKeys(r)
 	// --- the file entry point: ParseFile(name) is Parse(what the file holds now) ---
 	parseFileRel(r, "")
 }
@@ -964,5 +966,62 @@ func parseVerdictStable(r *Run, prefix string) {
 				}
 			}
 		}
+	}
+}
+
+// c04IDWithTwoKeys: one ID registered with two different keys, one after the other — each key is paired with that ID
+// only, as the property's quantifier asks — makes the FIRST key render the second template: the slot found through the
+// ID is reused and the first key keeps pointing at it (open finding F-id-two-keys; the registry is built on "an ID and a
+// key are two names of ONE slot", see C04F). Probed in the forms the property names: by key, through an include, by
+// key-with-fallback; and the aliasing that follows (a later registration under the first key changes the second).
+func c04IDWithTwoKeys(r *Run) {
+	defer dyntpl.VerifResetRegistry()
+	dyntpl.VerifResetRegistry()
+	parse := func(src string) *dyntpl.Tree {
+		t, err, pan := parseSafe([]byte(src), false)
+		if err != nil || pan != "" {
+			return nil
+		}
+		return t
+	}
+	a, b, c, host := parse("two-keys A"), parse("two-keys B"), parse("two-keys C"), parse("<{% include tk/a %}>")
+	if a == nil || b == nil || c == nil || host == nil {
+		r.Internal("C04 id-with-two-keys: sources do not parse")
+		return
+	}
+	dyntpl.RegisterTpl(4201, "tk/a", a)
+	dyntpl.RegisterTpl(4201, "tk/b", b)
+	dyntpl.RegisterTplKey("tk/host", host)
+	render := func(f func(ctx *dyntpl.Ctx) ([]byte, error)) string {
+		out, err := f(dyntpl.NewCtx())
+		if err != nil {
+			return "error: " + err.Error()
+		}
+		return string(out)
+	}
+	got := map[string]string{
+		"Render(tk/a)":               render(func(ctx *dyntpl.Ctx) ([]byte, error) { return dyntpl.Render("tk/a", ctx) }),
+		"include tk/a":               render(func(ctx *dyntpl.Ctx) ([]byte, error) { return dyntpl.Render("tk/host", ctx) }),
+		"RenderFallback(tk/a, tk/b)": render(func(ctx *dyntpl.Ctx) ([]byte, error) { return dyntpl.RenderFallback("tk/a", "tk/b", ctx) }),
+		"Render(tk/b)":               render(func(ctx *dyntpl.Ctx) ([]byte, error) { return dyntpl.Render("tk/b", ctx) }),
+		"RenderByID(4201)":           render(func(ctx *dyntpl.Ctx) ([]byte, error) { return dyntpl.RenderByID(4201, ctx) }),
+	}
+	dyntpl.RegisterTplKey("tk/a", c)
+	got["Render(tk/b) after RegisterTplKey(tk/a, C)"] = render(func(ctx *dyntpl.Ctx) ([]byte, error) { return dyntpl.Render("tk/b", ctx) })
+	want := map[string]string{"Render(tk/a)": "two-keys A", "include tk/a": "<two-keys A>", "RenderFallback(tk/a, tk/b)": "two-keys A", "Render(tk/b)": "two-keys B", "RenderByID(4201)": "two-keys B",
+		"Render(tk/b) after RegisterTplKey(tk/a, C)": "two-keys B"}
+	sig := "id-two-keys"
+	r.Count(sig, true)
+	r.Dist["id_with_two_keys_probe"]++
+	var wrong []string
+	for k, w := range want {
+		if got[k] != w {
+			wrong = append(wrong, fmt.Sprintf("%s = %q, want %q", k, got[k], w))
+		}
+	}
+	sort.Strings(wrong)
+	if len(wrong) > 0 {
+		r.Violate(sig, "RegisterTpl(4201, \"tk/a\", A) then RegisterTpl(4201, \"tk/b\", B): the first key no longer renders the template most recently registered under it",
+			map[string]any{"history": []string{`RegisterTpl(4201, "tk/a", A)`, `RegisterTpl(4201, "tk/b", B)`, `RegisterTplKey("tk/host", "<{% include tk/a %}>")`, "lookups", `RegisterTplKey("tk/a", C)`, "lookup"}, "wrong": wrong})
 	}
 }
